@@ -130,4 +130,20 @@ CHECKS = {
                   R("^TestTransitions$", 8, 2, 3000, env={"VERIF_C02_SLOW": "1"}, shrinktime="1s")],
         floors={"has-fault": ("TestTransitions", 0.5)},
     ),
+    "C01": dict(
+        pkg="./props/c01", bins=["./cmd/simcore"], level="exploration",
+        rule=("whole core against the simulated world; rapid-generated histories over one environment: 1-7 batches of requests "
+              "(ControlEnvironment DEPLOY/CONFIGURE/START_ACTIVITY/STOP_ACTIVITY/RESET/GO_ERROR, DestroyEnvironment with drawn flags), each batch "
+              "issued by one caller or by 2-3 concurrent callers (the first request is parked inside its transition by a gated probe while "
+              "the others are fired; for 250 ms no second transition may start), and a drawn outcome (ok / critical task error / critical "
+              "hook failure) for every executed transition. Oracle on the core's own, synchronously forwarded event stream joined with probe "
+              "reports and executor commands: transitions never overlap, reported states follow the documented graph, every transition starts "
+              "from the state left by the previous one (serial model walk), illegal requests have no hooks and no commands, failures end in "
+              "ERROR, DONE is terminal. Non-trivial: an illegal request, a failed transition or a concurrent batch."),
+        assumptions=["goroutine scheduling inside the core is not owned; the harness owns the order of external stimuli (held probes, request issue order)",
+                     "the gRPC status and the state field of a reply in a concurrent batch are not part of the oracle (read after the lock is released)"],
+        quick=[R("^TestFixed$", 1, 1, 400), R("^TestHistories$", 12, 10, 600, shrinktime="60s")],
+        thorough=[R("^TestFixed$", 1, 1, 400), R("^TestHistories$", 250, 15, 3000, shrinktime="120s")],
+        floors={"concurrent-batch": ("TestHistories", 0.3), "illegal-request": ("TestHistories", 0.3)},
+    ),
 }
